@@ -207,7 +207,7 @@ class YPPrologCompiler:
 
     def compile_body(self,body):
         # :- A,B
-        self._debug(f'---- Body: {body} :: {body!r}')
+        self._debug(f'---- Body: {body} :: {type(body).__name__}')
         if isinstance(body,ConjunctionPredicate):
             # if A is simple
             if isinstance(body.lhs,Predicate):
@@ -367,7 +367,7 @@ class YPPrologCompiler:
             return self.compile_list(expr)
         if isinstance(expr,ListPairTerm):
             return YPCodeCall('listpair',[ self.compile_expression(expr.head), self.compile_expression(expr.tail) ])
-        self._debug("UNK EXPR", expr,repr(expr))
+        self._debug("UNK EXPR", expr,type(expr).__name__)
     def compile_list(self,expr):
         self._debug("compile_list:",expr)
         if expr.items == []:
